@@ -361,7 +361,7 @@ class Model(object):
 
 
 # ----------------------------------------------------------------------
-def _reactor_for(types, ftf=None):
+def _reactor_for(types, ftf=None, swept=False):
     """real Reactor for a 7/19-position loading of the template types (2 kg/s each, gap flow 5 %)"""
     T = {'R3': S.design(3, oftf=OFTF), 'R2': S.design(2, oftf=OFTF),
          'R2p': S.design(2, oftf=OFTF, pd=1.08, clearance='loose'),
@@ -379,11 +379,19 @@ def _reactor_for(types, ftf=None):
         pw[str(S.asm_id(rg, p) + 1)] = {'rings': T[t]['num_rings'], 'nduct': 1, 'cells': [0.0, 0.4],
                                         'q': 800.0, 'pins': 'uniform'}
     used = sorted(set(t for t in types if t))
-    scn = {'setup': {}, 'core': {'inlet': 623.15, 'length': 0.4, 'pitch': PITCH, 'gap_model': 'flow',
+    scn = {'setup': {'calc_energy_balance': True} if swept else {},
+           'core': {'inlet': 623.15, 'length': 0.4, 'pitch': PITCH, 'gap_model': 'flow',
                                  'coolant': 'sodium_se2anl_425', 'bypass_fraction': 0.05},
            'types': {t: T[t] for t in used}, 'assign': assign, 'power': {'asm': pw}}
     with S.Built(scn) as b:
-        return b.reactor()
+        if not swept:
+            return b.reactor()
+        # the whole run of a user: sweep, tally of the energy balance, output tables written; the gap mesh read
+        # afterwards is still the one the Core was loaded with
+        rx = b.reactor(write_output=True)
+        rx.temperature_sweep()
+        rx.postprocess()
+        return rx
 
 
 def reactor_cases(tier):
@@ -406,6 +414,8 @@ def reactor_cases(tier):
                 c['via'] = 'reactor'
                 c['ftf'] = ftf
                 out.append(c)
+                if ftf is None and rot == rots[0] and (tier != 'quick' or mask % 4 == 2):
+                    out.append(dict(c, swept=True))
     if tier != 'quick':
         for pat in sorted(PATTERNS):
             base = [PATTERNS[pat](p) for p in range(19)]
@@ -448,7 +458,7 @@ def run_case(c):
         if c.get('via') == 'reactor':
             # the Core the real Reactor constructs for this loading (Reactor._setup_core: position ids,
             # assembly objects, outer flat-to-flat and gap flow handed to Core)
-            rx = _reactor_for(types, c.get('ftf'))
+            rx = _reactor_for(types, c.get('ftf'), c.get('swept', False))
             core = rx.core
             gap_flow = float(core.gap_flow_rate)
             want = 0.05 / 0.95 * 2.0 * M.n_asm
